@@ -1,5 +1,6 @@
 import GateModel.C01.Lemmas
 import GateModel.C01.Pool
+import GateModel.C01.BufLife
 /-
 C01 — Packet frames survive compression, encryption and arbitrary stream chunking.
 
@@ -112,6 +113,27 @@ theorem pooled_write_integrity (content : Nat → Bytes) (sched : List Nat) :
 theorem pooled_write_defective_fails :
     (Pool.runDefective (fun t => if t = 0 then [1, 1] else [2, 2]) [0, 0, 0, 1, 1, 0]).out = [(0, [2, 2])] := by
   rfl
+
+/-- The pools over their whole HISTORY, self-calibration included (after `K` Puts fresh buffers are pre-sized and
+    large buffers are no longer recycled): as long as a fresh buffer has length 0 — `make([]byte, 0, n)` —
+    every use, before and after any number of calibrations and whatever is dropped or recycled, writes exactly
+    its own frame body.  `K`, the calibrated size and the capacities are arbitrary. -/
+theorem pool_history_integrity (K size : Nat) (uses : List (Bytes × Nat)) :
+    BufLife.history (fun _ => []) K size BufLife.init uses = uses.map (·.1) :=
+  BufLife.history_writes_contents (fun _ => []) (fun _ => rfl) K size BufLife.init BufLife.clean_init uses
+
+/-- …and this depends on the LENGTH of a fresh buffer being 0: with `make([]byte, n)` (length = the calibrated
+    size) the first use after calibration that misses the pool writes `n` zero bytes in front of its frame.
+    Witness with K = 2, size 4: the buffer of the third use is dropped (capacity 9 > 4), the fourth misses. -/
+theorem pool_presized_length_fails :
+    BufLife.history (fun n => List.replicate n 0) 2 4 BufLife.init [([1], 1), ([2], 1), ([3], 9), ([4], 1)]
+      = [[1], [2], [3], [0, 0, 0, 0, 4]] := by decide +kernel
+
+open Gate.Gen.C01 in
+/-- tie: the calibration threshold is the source's, and `Put` resets a buffer before pooling it -/
+theorem src_pool_put_resets_before_pooling :
+    calibrateCallsThreshold = 42000 ∧
+    poolPutCalls.idxOf "b.Reset" < poolPutCalls.idxOf "p.pool.Put" ∧ "b.Reset" ∈ poolPutCalls := by decide
 
 /-! ### recorded findings (the unchanged code does this; see findings/C01.json) -/
 
